@@ -17,12 +17,11 @@
 
 using namespace cd;
 
-// Known disagreements (reported; each has its trigger in corpus/C08/xwire-known-*.ops).  The generator keeps them out
-// of the random stream BY CONSTRUCTION (see genName/genF32pt below), the oracle itself is not loosened.
-//   PY-NAMELEN : message.py FlattenedSize() counts a field NAME in characters, Flatten() writes UTF-8 bytes
+// Known disagreement still open (trigger in corpus/C08/xwire-known-py-snan.ops).  The generator keeps it out of the random
+// stream BY CONSTRUCTION (see xF32pt below), the oracle itself is not loosened.
 //   PY-SNAN    : message.py turns point/rect coordinates into Python floats; a signalling NaN comes back quiet
-//   MICRO-EMPTYBLOB : UMFindData() returns an error for a zero-length raw item that is the last item of its field
-//                     (`pointerToBlob >= afterEndOfField`); the random stream has no zero-length raw items, the corpus has
+// Repaired in /repo (regression inputs in corpus/C08/xwire-regress-*.ops; the stream now contains their input classes):
+//   PY-NAMELEN (FlattenedSize() of a non-ASCII field name), MICRO-EMPTYBLOB (UMFindData() on a zero-length last item).
 
 struct XWireEngine : public MsgEngine
 {
@@ -33,7 +32,6 @@ struct XWireEngine : public MsgEngine
    virtual ~XWireEngine() {if ((!inGen)&&(nFlat)) fprintf(stderr, "xwire: %llu cross-checks, python pair evaluated on %llu, skipped (non-UTF-8) on %llu\n", (unsigned long long)nFlat, (unsigned long long)nPy, (unsigned long long)nPySkipped);}
 
    // ------------------------------------------------------------------ generator
-   bool asciiNames;   // per case: field names ASCII only (keeps PY-NAMELEN out of the random stream)
    bool utf8Only;     // per case: names and strings valid UTF-8 (so that the Python pair is evaluated)
 
    std::string genUtf8(Rng & r, uint32_t nchars, bool asciiOnly)
@@ -51,12 +49,10 @@ struct XWireEngine : public MsgEngine
    {
       static const char * fixed[] = {"a", "b", "c", "name", "x y", "", "aaaaaaaaaaaaaaaaaaaaaaaaaaaaaaaaaaaaaaaaaaaaaaaaaaaaaaaaaaaaaaaaaaa", "f\xc3\xa9", "\xe2\x82\xac"};
       if (r.chance(3,4)) return fixed[r.below(5)];
-      if (r.chance(1,2)) return fixed[r.below(7)];   // fixed[7], fixed[8] (non-ASCII UTF-8 names) only in the known-finding corpus
-      if (asciiNames) return genUtf8(r, r.range(1,6), true);
-      // arbitrary bytes, made invalid as UTF-8 by construction (0xFF never occurs in UTF-8): the Python pair is skipped
+      if (r.chance(1,2)) return fixed[r.below(utf8Only ? 9 : 7)];
+      if (utf8Only) return genUtf8(r, r.range(1,6), r.chance(1,2));
       std::string s; const uint32_t n = r.range(1,6);
-      for (uint32_t i=0; i<n; i++) s.push_back((char)r.range(1,255));
-      s[r.below(n)] = (char)0xFF;
+      for (uint32_t i=0; i<n; i++) s.push_back((char)r.range(1,255));   // arbitrary bytes: the Python pair is skipped unless they happen to be UTF-8
       return s;
    }
    std::string xStr(Rng & r)
@@ -84,7 +80,6 @@ struct XWireEngine : public MsgEngine
          case 7:  return "pt " + u64s(xF32pt(r)) + "," + u64s(xF32pt(r));
          case 8:  return "rc " + u64s(xF32pt(r)) + "," + u64s(xF32pt(r)) + "," + u64s(xF32pt(r)) + "," + u64s(xF32pt(r));
          case 9:  return "str " + hexOf(xStr(r));
-         case 10: {std::string b = genBytes(r, false); if (b.empty()) b.push_back((char)r.below(256)); return "raw " + u64s(B_RAW_TYPE) + " " + hexOf(b);}   // MICRO-EMPTYBLOB
          case 13: return genVal(r, 12);   // no pointer fields: a sub-Message instead
          case 14: return genVal(r, 11);   // no tag fields: raw data under an unusual type code instead
          default: return genVal(r, t);
@@ -99,7 +94,7 @@ struct XWireEngine : public MsgEngine
       {
          fprintf(out, "case %u\n", c*tier.nshards + tier.shard);
          reset();
-         utf8Only = r.chance(3,4); asciiNames = utf8Only || r.chance(1,2);
+         utf8Only = r.chance(3,4);
          const uint32_t nops = r.range(1, tier.thorough ? 100 : 50);
          std::vector<std::string> names; std::vector<int> types;
          const uint32_t nf = r.range(1, r.chance(1,10) ? 12 : 5);
